@@ -3,7 +3,7 @@ From Charon Require Import Common.Quorum Qbft.Model Qbft.ModelFacts.
 Import ListNotations.
 Load "scratch/t3body.v".
 
-Definition f_prep (s : state) : bmsg -> bool := f_trv Prepare (prepR s) (prepV s).
+Definition f_prep0 (s : state) : bmsg -> bool := f_trv Prepare (prepR s) (prepV s).
 
 Record inv (p : params) (s : state) : Prop := mkinv {
   i_timer : decided s = true -> timer s = None;
@@ -15,7 +15,8 @@ Record inv (p : params) (s : state) : Prop := mkinv {
           | PEmpty => round s = 1 /\ is_leader p 1 (self p) = true
           | PQrc _ _ => is_leader p (round s) (self p) = true
           end;
-  i_res : decided s = false -> resends s = []
+  i_res : decided s = false -> resends s = [];
+  i_init : started s = false -> s = init
 }.
 
 Lemma inv_init : forall p, inv p init.
@@ -24,13 +25,34 @@ Proof. intro p. constructor; simpl; auto; discriminate. Qed.
 Lemma decided_nonempty : forall s, decided s = true <-> qcommit s <> [].
 Proof. intro s. unfold decided. destruct (qcommit s); split; try congruence; auto. Qed.
 
+Ltac rule_facts :=
+  match goal with E : existsb (rule_eqb ?rl) (rules_of ?p ?s ?m) && _ = true |- _ =>
+    let Hr := fresh "Hr" in apply andb_true_iff in E; destruct E as [Hr _]; apply rules_of_inv in Hr; simpl in Hr end.
+Ltac started_fact :=
+  match goal with E : negb (started ?s) || dead ?s = false |- _ =>
+    let Hst := fresh "Hst" in let Hdd := fresh "Hdd" in
+    apply orb_false_iff in E; destruct E as [Hst Hdd]; apply negb_false_iff in Hst end.
+
 Lemma inv_fstep : forall p s e o s' outs, 1 <= nodes p ->
   inv p s -> fstep p s e o = Some (s', outs) -> inv p s'.
 Proof.
-  intros p s e o s' outs Hn [I1 I2 I3 I4 I5 I6] H.
+  intros p s e o s' outs Hn [I1 I2 I3 I4 I5 I6 I7] H.
   pose proof (quorum_pos (nodes p) Hn) as Hq. fold (qn p) in Hq.
-  destruct e; crush_fstep H.
-  all: constructor; st; auto; try discriminate; try congruence.
-  all: idtac "goal".
-  all: match goal with |- ?G => idtac G end.
+  destruct e.
+  - (* start *) crush_fstep H; apply orb_false_iff in Heqb; destruct Heqb as [Hst Hdd]; rewrite (I7 Hst) in *;
+      constructor; simpl; auto; try discriminate.
+  - crush_fstep H; constructor; st; auto; try discriminate; try congruence.
+    all: try (match goal with E : ppj _ = _ |- _ => rewrite E end; auto).
+    all: try (intro Hx; apply I7 in Hx; rewrite Hx in *; discriminate).
+  - crush_fstep H.
+    all: try rule_facts.
+    all: started_fact.
+    all: constructor; st; auto; try discriminate; try congruence.
+    all: try (match goal with E : ppj _ = _ |- _ => rewrite E end; auto).
+    all: try (intro Hx; apply I7 in Hx; rewrite Hx in *; discriminate).
+    all: try (right; destruct Hr as [_ [Hr1 Hr2]]; rewrite <- Hr1; rewrite nsrc_dedupb_filter; exact Hr2).
+    all: try (intros _; destruct Hr as [_ [Hr1 Hr2]]; rewrite <- ?Hr1;
+              match goal with E : pick_ok _ _ _ = true |- _ => rewrite (pick_ok_nsrc _ _ _ E); exact Hr2 end).
+    all: idtac "goal".
+    Show 1. Show 2. Show 3.
 Abort.
